@@ -1301,6 +1301,148 @@ fn layoutlisteq(repo: &Path) -> R {
             "/-- `{who}`: every element address and the item's go to the element type's eq_fn; first hit returns -/\ndef {lean} : List ScanStep := [.forEachItem {found}, .ret {missing}]\n\n"
         );
     }
+    s += &vtable_wiring(repo)?;
     s += "end RotoV.Gen.LayoutListEq\n";
     Ok(s)
+}
+
+struct BranchFinder(bool);
+impl<'ast> syn::visit::Visit<'ast> for BranchFinder {
+    fn visit_expr_if(&mut self, _: &'ast syn::ExprIf) {
+        self.0 = true;
+    }
+    fn visit_expr_match(&mut self, _: &'ast syn::ExprMatch) {
+        self.0 = true;
+    }
+}
+
+/// The vtable `Lowerer::call_runtime` (src/lir/lower.rs) builds for every type
+/// parameter of a runtime function (the list methods): which value goes into
+/// which field of `struct VTable` (src/value/vtable.rs).
+fn vtable_wiring(repo: &Path) -> R {
+    use syn::visit::Visit;
+    let who = "Lowerer::call_runtime";
+    let vt = find::parse(repo, "src/value/vtable.rs")?;
+    let fields = find::struct_fields(&vt, "VTable")?;
+    let mut lean_fields = vec![];
+    for (n, _) in &fields {
+        lean_fields.push(match n.as_str() {
+            "size" => ".size",
+            "align" => ".align",
+            "clone_fn" => ".cloneFn",
+            "drop_fn" => ".dropFn",
+            "eq_fn" => ".eqFn",
+            o => return Err(format!("struct VTable: unknown field `{o}`")),
+        });
+    }
+    let file = find::parse(repo, "src/lir/lower.rs")?;
+    let f = find::func(&file, "call_runtime", Some("Lowerer"))?;
+    let lp = real_stmts(&f.block.stmts)
+        .into_iter()
+        .find_map(|st| match st {
+            syn::Stmt::Expr(syn::Expr::ForLoop(l), _) if norm(&l.expr) == "vtables.iter().enumerate()" => Some(l.clone()),
+            _ => None,
+        })
+        .ok_or(format!("{who}: no `for … in vtables.iter().enumerate()`"))?;
+    if norm(&lp.pat) != "(i,&ty_ref)" {
+        return Err(format!("{who}: the vtable loop binds `{}`", norm(&lp.pat)));
+    }
+    let mut locals: Vec<(String, syn::Expr)> = vec![];
+    let mut writes: Vec<String> = vec![];
+    let mut adds = 0usize;
+    let gen_name = |e: &syn::Expr, kind: &str| norm(e).contains(&format!("name:format!(\"::generated::{kind}_{{type_id}}\").into()"));
+    let null = "{Operand::Value(crate::lir::IrValue::Pointer(0))}";
+    for st in real_stmts(&lp.body.stmts) {
+        match st {
+            syn::Stmt::Local(l) => {
+                let name = norm(&l.pat);
+                let Some(init) = &l.init else { return Err(format!("{who}: `{}`", norm(st))) };
+                if name == "offset" {
+                    let t = norm(&init.expr);
+                    if t != "builder.add(&Layout::of::<usize>())" && t != "builder.add(&Layout::of::<*mut()>())" {
+                        return Err(format!("{who}: a vtable field is placed by `{t}`, not as one pointer-sized field"));
+                    }
+                    adds += 1;
+                }
+                locals.push((name, (*init.expr).clone()));
+            }
+            syn::Stmt::Expr(syn::Expr::MethodCall(m), _) if m.method == "emit_write" && norm(&m.receiver) == "self" => {
+                if m.args.len() != 2 || norm(&m.args[0]) != "dst" {
+                    return Err(format!("{who}: unsupported write `{}`", norm(st)));
+                }
+                if adds != writes.len() + 1 {
+                    return Err(format!("{who}: write {} does not follow its own `builder.add`", writes.len()));
+                }
+                let v = norm(&m.args[1]).replace(",)", ")");
+                let slot = if v == "Operand::Value(crate::lir::IrValue::Pointer(ty_layout.size()))" {
+                    ".layoutSize".to_string()
+                } else if v == "Operand::Value(crate::lir::IrValue::Pointer(ty_layout.align()))" {
+                    ".layoutAlign".to_string()
+                } else {
+                    let Some((_, e)) = locals.iter().rev().find(|(n, _)| *n == v) else {
+                        return Err(format!("{who}: a vtable field receives `{v}`"));
+                    };
+                    let mut slot = None;
+                    for (kind, cond, lean, lcond) in [
+                        ("clone", "self.needs_clone(ty_ref)", ".clone", ".needsClone"),
+                        ("drop", "self.needs_drop(ty_ref)", ".drop", ".needsDrop"),
+                        ("eq", "", ".eq", ""),
+                    ] {
+                        if !gen_name(e, kind) {
+                            continue;
+                        }
+                        match e {
+                            syn::Expr::If(i) if !cond.is_empty() => {
+                                let els = i.else_branch.as_ref().map(|x| norm(&x.1)).unwrap_or_default();
+                                if norm(&i.cond) != cond || els != null {
+                                    return Err(format!("{who}: `{v}` is not `if {cond} {{ address }} else {{ null }}`"));
+                                }
+                                let mut bf = BranchFinder(false);
+                                bf.visit_block(&i.then_branch);
+                                if bf.0 {
+                                    return Err(format!("{who}: `{v}` branches further"));
+                                }
+                                slot = Some(format!(".generated {lean} (some {lcond})"));
+                            }
+                            syn::Expr::Block(b) if cond.is_empty() => {
+                                let mut bf = BranchFinder(false);
+                                bf.visit_block(&b.block);
+                                if bf.0 {
+                                    return Err(format!("{who}: the address of the generated {kind} function is chosen under a condition"));
+                                }
+                                slot = Some(format!(".generated {lean} none"));
+                            }
+                            _ => {
+                                return Err(format!(
+                                    "{who}: `{v}` (generated {kind} function) has another shape than in the subset: `{}`",
+                                    norm(e).chars().take(120).collect::<String>()
+                                ))
+                            }
+                        }
+                    }
+                    slot.ok_or(format!("{who}: `{v}` is not the address of a generated clone / drop / eq function of `type_id`"))?
+                };
+                writes.push(slot);
+            }
+            syn::Stmt::Expr(syn::Expr::MethodCall(m), _) if matches!(m.method.to_string().as_str(), "push") => {}
+            other => return Err(format!("{who}: statement outside the subset in the vtable loop: `{}`", norm(other).chars().take(120).collect::<String>())),
+        }
+    }
+    let want = |n: &str, t: &str| -> Result<(), String> {
+        match locals.iter().find(|(x, _)| x == n) {
+            Some((_, e)) if norm(e) == t => Ok(()),
+            Some((_, e)) => Err(format!("{who}: `{n}` is `{}`, expected `{t}`", norm(e))),
+            None => Err(format!("{who}: no `let {n}`")),
+        }
+    };
+    want("type_id", "ty_ref.type_id()")?;
+    want("ty_layout", "self.layout_of(ty_ref).unwrap_or(Layout::of::<()>())")?;
+    if writes.len() != lean_fields.len() {
+        return Err(format!("{who}: {} vtable writes for {} fields of struct VTable", writes.len(), lean_fields.len()));
+    }
+    Ok(format!(
+        "/-- `struct VTable` (src/value/vtable.rs), fields in declaration order -/\ndef vtableFields : List VtField := [{}]\n\n/-- `Lowerer::call_runtime` (src/lir/lower.rs): what is written into the vtable of a type\n    parameter `ty_ref`, one pointer-sized field after the other -/\ndef vtableWrites : List VtSlot := [{}]\n\n",
+        lean_fields.join(", "),
+        writes.join(", ")
+    ))
 }
